@@ -456,9 +456,13 @@ impl BtpInner {
             .is_ack_due(Instant::now(), self.ack_timeout_secs as _)
         {
             let len = self.session.prep_tx_data(&[], &mut 0, buf)?;
-            assert!(len > 0);
+            if len > 0 {
+                return Ok(len);
+            }
 
-            return Ok(len);
+            // The send window is exhausted - the peer is not acknowledging what we
+            // send - so the ACK cannot go out now. Not a reason to panic: the peer
+            // controls this.
         }
 
         Ok(0)
